@@ -109,6 +109,10 @@ func (p *AV1Payloader) Payload(mtu uint16, payload []byte) (payloads [][]byte) {
 				// the OBU being read opens the new packet, later OBUs are compared with its layer
 				currentPacketOBUHeader = obuHeader.ExtensionHeader
 			}
+		} else if needNewPacket {
+			// Nothing is pending because the previous OBU was dropped (temporal
+			// delimiter, tile list): remember the decision for this OBU.
+			startWithNewPacket = true
 		}
 
 		// The temporal delimiter OBU, if present, SHOULD be removed when transmitting,
